@@ -29,8 +29,13 @@ V_ASSIGNS(V_RX_ASSIGNS zck != NULL: zck->error_state; index != NULL: index->dige
 V_ENSURES(!__CPROVER_return_value || (zck != NULL && V_OLD(zck->error_state) == 0 && zck->error_state == 0 && index != NULL && digest_size != 0)) /*@C10,C03.index_new_chunk.succeeds_only_on_usable_arguments*/
 V_ENSURES(!__CPROVER_return_value || (index->count == V_OLD(index->count) + 1 && index->length == V_OLD(index->length) + comp_size && index->digest_size == (size_t)digest_size)) /*@C10.index_new_chunk.count_and_length_advance*/
 V_ENSURES(!__CPROVER_return_value || (__CPROVER_is_fresh(index->last, sizeof(zckChunk)) && index->last->src == src && index->last->comp_length == comp_size && index->last->length == orig_size && index->last->valid == (int)finished && index->last->next == NULL && index->last->start == V_OLD(index->length) && index->last->number == V_OLD(index->count) && index->last->zck == zck)) /*@C10,C04.index_new_chunk.tail_entry_names_source_and_sizes*/
-V_ENSURES(!__CPROVER_return_value || (V_OLD(index->first) == NULL ? index->first == index->last : index->first == V_OLD(index->first))) /*@C10.index_new_chunk.appended_at_tail*/
+V_ENSURES(!__CPROVER_return_value || (V_OLD(index->first) == NULL ? index->first == index->last : (index->first == V_OLD(index->first) && V_OLD(index->last)->next == index->last))) /*@C10.index_new_chunk.appended_at_tail*/
+V_ENSURES(!__CPROVER_return_value || (__CPROVER_is_fresh(index->last->digest, digest_size) && __CPROVER_is_fresh(index->last->digest_uncompressed, digest_size) && index->last->digest_size == (digest == NULL ? 0 : digest_size))) /*@C10,C03.index_new_chunk.entry_owns_digest_copies*/
 V_ENSURES(__CPROVER_return_value || index == NULL || (index->first == V_OLD(index->first) && index->last == V_OLD(index->last) && index->count == V_OLD(index->count) && index->length == V_OLD(index->length))) /*@C10.index_new_chunk.failure_appends_nothing*/
+#ifdef VERIF_NO_OOM
+/* variant assumption "no allocation fails": then the listed argument conditions are the only failures */
+V_RX_ENSURES(__CPROVER_return_value == (zck != NULL && V_OLD(zck->error_state) == 0 && index != NULL && digest_size != 0))
+#endif
 V_RX_ENSURES(__CPROVER_return_value ? (g_rx_n == V_OLD(g_rx_n) + 1 && g_rx_src[V_OLD(g_rx_n) % RX_MAX] == src && g_rx_size[V_OLD(g_rx_n) % RX_MAX] == comp_size) : g_rx_n == V_OLD(g_rx_n))
 ;
 
